@@ -12,6 +12,7 @@ TARGETS = {
     "t_registry": dict(variant="asan", srcs=["t_registry.cc"], libs=RC),
     "t_copy": dict(variant="asan", srcs=["t_copy.cc"], libs=RC),
     "t_vector": dict(variant="asan", srcs=["t_vector.cc"], libs=RC + " -lpthread"),
+    "t_threads": dict(variant="tsan", srcs=["t_threads.cc"], libs=RC + " -lpthread"),
     "t_handles": dict(variant="opt", srcs=["t_handles.cc"], libs="-lpthread"),
 }
 
@@ -344,6 +345,27 @@ CHECKS = {
         technique="complete lattice enumeration + rapidcheck special-value vectors and generated meshes against component-wise reference formulas",
         level_text="Exhaustive on a small integer lattice for all four scalar types; generated special floating-point values; geometric queries on generated meshes.",
         level_note="Floating-point comparisons use the stated tolerances.",
+    ),
+    "C20": dict(
+        kind="rc_program", target="t_threads", level="exploration",
+        quick=dict(workers=16, max_success=60, max_size=80, len_scale=0.5, timeout=900),
+        thorough=dict(workers=16, max_success=1200, max_size=100, len_scale=0.8, timeout=3600),
+        rule=("cases = a generated polyhedral mesh (history with deferred-deleted entities and live properties of several "
+              "types) plus small tetrahedral and hexahedral meshes; T in {2,4,8,16} reader threads are released together "
+              "(generated start skews) and each runs a generated sequence of 3-8 steps drawn from 11 groups covering the "
+              "whole const surface: all upward queries / boundary tests / boundary iterators, every entity iterator and "
+              "circulator (forward, backward, laps, copies), mirror-image accessors, rotational order and in-cell "
+              "adjacency, all lookups, definitions / positions / barycenters / normals / lengths, property reads through "
+              "existing handles, counts and flags, backward entity traversal, tet queries (get_cell_vertices, "
+              "TetTopology, opposite vertex), hex queries (hex_vertices, sheets, orientation). Oracle 1: ThreadSanitizer "
+              "(halt on first report). Oracle 2: each thread's result digest equals the digest of the same sequence run "
+              "single-threaded beforehand. non-trivial = >=2 threads executing the same query group on a mesh with >=1 "
+              "cell; distinct = distinct program hash"),
+        assumptions=["the schedule is not controlled: TSan reports two conflicting unsynchronised accesses whenever both are executed in one run, whatever their timing; races on code paths the generated queries do not execute are missed",
+                     "property creation / destruction is excluded, as in the statement"],
+        technique="rapidcheck read-only thread programs over generated meshes, ThreadSanitizer as race oracle, differential determinism digest",
+        level_text="Exploration: every const API group executed concurrently by 2-16 threads under ThreadSanitizer on generated meshes.",
+        level_note="Does not enumerate interleavings; a race needs both accesses to be executed by different threads in one run (no lock-based synchronisation exists in the library today).",
     ),
 }
 
